@@ -31,12 +31,14 @@ def mk_iface(iface):
     return gs.DataclassInterface(lambda s: 0.0), lambda d: DC(**d)
 
 
-def case(col, kind, keys, diag, rng, T=40, iface="dict"):
+def case(col, kind, keys, diag, rng, T=40, iface="dict", user_mm=False):
     hist = {k: jnp.asarray(rng.normal(size=(T,) + SHAPES[k]) * SCALES[k], dtype=jnp.float32) for k in SHAPES}
     model, mk_state = mk_iface(iface)
     ms = mk_state({k: jnp.zeros(SHAPES[k], dtype=jnp.float32) for k in SHAPES})
     K = gs.NUTSKernel if kind == "NUTS" else gs.HMCKernel
-    k = K(list(keys), initial_step_size=0.1, mm_diag=diag)
+    dim = int(sum(np.prod(SHAPES[kk], dtype=int) for kk in keys))
+    # an explicit initial_inverse_mass_matrix only says where the adaptation STARTS
+    k = K(list(keys), initial_step_size=0.1, mm_diag=diag, initial_inverse_mass_matrix=(jnp.full((dim,), 0.5) if diag else 0.5 * jnp.eye(dim)) if user_mm else None)
     k.set_model(model)
     key = jax.random.PRNGKey(0)
     ks = k.init_state(key, ms)
@@ -47,7 +49,7 @@ def case(col, kind, keys, diag, rng, T=40, iface="dict"):
     # the flat coordinates the matrix scales: the kernel's OWN position (whatever object the interface returns for it) flattened as blackjax does, per draw
     flat = np.asarray([np.asarray(ravel_pytree(k.position(mk_state({kk: hist[kk][t] for kk in SHAPES})))[0]) for t in range(T)], dtype=np.float64)
     want = np.var(flat, axis=0, ddof=1) + 0.001 if diag else np.atleast_2d(np.cov(flat, rowvar=False)) + 0.001 * np.eye(flat.shape[1])
-    inp = {"kernel": kind, "position_keys": list(keys), "diagonal": diag, "shapes": {kk: list(SHAPES[kk]) for kk in keys}, "interface": iface}
+    inp = {"kernel": kind, "position_keys": list(keys), "diagonal": diag, "shapes": {kk: list(SHAPES[kk]) for kk in keys}, "interface": iface, "initial_inverse_mass_matrix": "0.5 * identity" if user_mm else None}
     if got.shape != want.shape or not np.allclose(got, want, rtol=2e-3, atol=1e-6):
         col.add({"sig": "native::mm::alignment", "what": f"tuned inverse mass {'vector' if diag else 'matrix'} is not the regularised variance/covariance of the "
                  f"history in flat-position order: got diag {np.diag(got).round(3).tolist() if got.ndim == 2 else got.round(3).tolist()}, "
@@ -126,6 +128,9 @@ def bounded(tier, seed):
         for diag in (True, False):
             case(col, kind, ("c", "W"), diag, rng, T=5)  # the last flat coordinate (c) has variance 1e-4: the ridge of 0.001 dominates it
             n += 1
+    for kind, keys, diag in (("NUTS", ("b", "a"), True), ("NUTS", ("W",), False), ("HMC", ("b", "a"), False), ("HMC", ("c", "W", "b"), True)):
+        case(col, kind, keys, diag, rng, user_mm=True)
+        n += 1
     for iface in ("namedtuple", "dataclass"):
         for kind, keys, diag in (("NUTS", ("b", "a"), True), ("HMC", ("c", "W", "b"), False)):
             try:
@@ -147,7 +152,7 @@ def bounded(tier, seed):
     return {
         "evaluations": col.evals, "distinct_nontrivial": n,
         "rule": (f"BOUNDED: real NUTSKernel/HMCKernel.tune (public dispatcher, SLOW_ADAPTATION epoch; single-key kernels with a history of just that key) on seeded random histories (40 draws; and 5 draws for 7 coordinates, the last one with variance 1e-4) for {len(key_sets)} position-key tuples (non-alphabetical orders, "
-                 "scalar / vector / (2,3)-matrix / length-1 parameters with very different scales, foreign keys present in the history), diagonal and dense mode; a history with mean 1000 and sd 0.1 (float32 cancellation); "
+                 "scalar / vector / (2,3)-matrix / length-1 parameters with very different scales, foreign keys present in the history), diagonal and dense mode, four of them with an explicit initial_inverse_mass_matrix; a history with mean 1000 and sd 0.1 (float32 cancellation); "
                  "expected = var(ddof=1)+0.001 / cov+0.001*I of the kernel's own position (kernel.position(state), DictInterface; NamedTupleInterface and DataclassInterface for two key tuples) flattened with ravel_pytree per draw. one real engine run (thorough: two, and all key permutations) with "
                  f"a fast, a burn-in and two slow-adaptation epochs of equal length and a co-existing RW kernel: the matrix in force after each epoch is computed from that epoch's own stored history. seed={seed}"),
         "samples": [{"kernel": "NUTS", "position_keys": ["b", "a"], "diagonal": True}, {"kernel": "HMC", "position_keys": ["c", "W", "b"], "diagonal": False}],
